@@ -20,6 +20,22 @@ private def minMax : List Float → Option (Float × Float)
   | [] => none
   | w :: ws => some (ws.foldl (fun m x => if x < m then x else m) w, ws.foldl (fun m x => if x > m then x else m) w)
 
+/-- The exact number an IEEE-754 double denotes (finite values; `-0.0` ↦ 0). -/
+private def ratOfFloat (x : Float) : Rat :=
+  let b : Nat := x.toBits.toNat
+  let neg := b / 2 ^ 63 == 1
+  let e : Nat := (b / 2 ^ 52) % 2048
+  let m : Nat := b % 2 ^ 52
+  let mant : Nat := if e == 0 then m else m + 2 ^ 52
+  let ex : Int := if e == 0 then -1074 else (e : Int) - 1075
+  let q : Rat := if ex ≥ 0 then ((mant * 2 ^ ex.toNat : Nat) : Rat) else (mant : Rat) / ((2 ^ (-ex).toNat : Nat) : Rat)
+  if neg then -q else q
+
+/-- The width literal `_bins` splices into the SQL: `1`, `2`, `5` are Python ints (integer literals), the others decimal literals
+(all multiples of 0.01; the model's numbers are exact). -/
+private def bwLiteral (bw : Float) : Rel.Val :=
+  if bw == bw.floor then .int bw.toInt64.toInt else .rat (mkRat (bw * 100.0).round.toInt64.toInt 100)
+
 /-- `{"op":"descriptive","sd":[n],"cols":[[n|null]],"tfcols":[i],"gammas":[[int]],"weights":[bits],"nbins":n,
      "self":[[wbits,pbits]]}` → TF tables and joined TF columns, completeness rows, comparison-vector
      distribution, histogram (chosen width, bins keyed by IEEE bits), unlinkables rows (integers: hundredths / 1e-5). -/
@@ -58,8 +74,23 @@ def handleDescriptive (j : Json) : Except String Json := do
   let enc := fun (rows : List Rel.Row) => Json.arr (rows.map fun r => Json.arr (r.map jv).toArray).toArray
   let tfSql := tfcols.map fun i => enc (DescSql.tfTable (colAt i))
   let complSql := cols.map fun c => enc (DescSql.completenessCol sd c)
+  -- the regenerated comparison-vector distribution, histogram and unlinkables statements under Rel.eval: the gamma columns by position;
+  -- the bin of a pair (`bw * floor(w / bw)` at Float, opaque in the model) and the rounded self-link scores as input columns
+  let ngam := match j.getObjValAs? Nat "ngam" with
+    | .ok n => n
+    | .error _ => (gammas.head?.map List.length).getD 1
+  let cvdSql := enc (DescSql.cvdOf ngam gammas)
+  let histSql : Json := match minMax weights with
+    | none => Json.null
+    | some (mn, mx) =>
+      let bw := chooseWidthFloat mn mx nbins.toFloat
+      let db : Rel.Db := Rel.Db.set (fun _ => []) "pred_in" (weights.map fun w => [Rel.Val.rat (ratOfFloat (binLowFloat bw w))])
+      enc (DescSql.histogram (Rel.Expr.col 0) (bwLiteral bw) db)
+  let unlSql := enc (DescSql.unlinkables (Rel.Expr.col 0) (Rel.Expr.col 1)
+    (Rel.Db.set (fun _ => []) "self_in" (rows.map fun r => [Rel.Val.int r.1, Rel.Val.rat (mkRat r.2 100000)])))
   pure <| Json.mkObj [
     ("tf_sql", Json.arr tfSql.toArray), ("compl_sql", Json.arr complSql.toArray),
+    ("cvd_sql", cvdSql), ("hist_sql", histSql), ("unl_sql", unlSql),
     ("tf", Json.arr (tf.map fun t => Json.arr (t.map fun r => Json.arr #[jNat r.value, jNat r.num, jNat r.den]).toArray).toArray),
     ("tfjoin", Json.arr (tfjoin.map fun t => Json.arr (t.map fun r =>
         match r.2 with
